@@ -127,6 +127,17 @@ class Spec(object):
     def families(self, tier):
         return focused(tier)
 
+    def explicit_families(self, tier):
+        out = [tandem("E tandem block syscap=3", "E", c=(1, 1), caps=(None, 0), K=None, T=BIG, system_capacity=3, features=["explicit", "blocking"])]
+        if tier != "quick":
+            out.append(tandem("E tandem c=(2,1) cap=1 syscap=4", "E", c=(2, 1), caps=(None, 1), K=None, T=BIG, system_capacity=4, features=["explicit", "blocking"]))
+            out.append(cfg("E cycle2 syscap=3", "E", [node(c=1, cap=1), node(c=1, cap=0)],
+                           {"A": klass([ARR, None], [SRV2, SRV2], route=matrix([[0.0, 1.0], [0.5, 0.0]]))}, K=None, T=BIG, system_capacity=3, features=["explicit", "blocking"]))
+            out.append(cfg("E two upstream one dest syscap=3", "E", [node(c=1), node(c=1), node(c=1, cap=0)],
+                           {"A": klass([ARR, [1.0, 2.0], None], [[1.0, 0.5], [1.0, 0.5], [2.0, 4.0]], route=matrix([[0.0, 0.0, 1.0], [0.0, 0.0, 1.0], [0.0, 0.0, 0.0]]))},
+                           K=None, T=BIG, system_capacity=3, features=["explicit", "blocking"]))
+        return out
+
 
 def focused(tier):
     K = 3 if tier == "quick" else 4
